@@ -91,6 +91,7 @@ PROPS = {
    corr=[("prog-params", "compile", 3000, 30000), ("lets", "compile", 1500, 15000)],
    oracle=[("prog-params", "oracle-C14", 1500, 15000), ("lets", "oracle-C14", 1500, 15000), ("prog-mut", "oracle-C14", 1000, 10000)],
    race=True,
+   repeat=[("rules", "resulttext", 150, 600, 12)],
    corpus=["compile.txt"], tables=["Gen/Shared.v: package_vars, write_sites"],
    assumptions=["absence of data races under the Go memory model is observed with the race detector (harness built with -race for the C14 oracle), not proved; sync.Once's contract is trusted"]),
  "C16": dict(
